@@ -163,6 +163,14 @@ def spec (caseLine implLine : String) : String :=
       let phantom := all.any (fun v => v.counters.any (fun e => !sent .counter e.1) || v.timers.any (fun e => !sent .timer e.1) ||
                                        v.gauges.any (fun e => !sent .gauge e.1) || v.sets.any (fun e => !sent .set e.1))
       if phantom then "FAIL phantom-series reported but never sent" else
+      -- (2b) a series is reported to the backends under the tags and source its value carries: they must be the ones
+      -- of a datapoint that was sent under the series' key (otherwise data appears under an identity never sent)
+      let identOK (ty : MType) (k : Key) (src : String) (tags : List String) := dps.any (fun d =>
+        d.ty == ty && d.name == k.1 && d.tagsKey == k.2 && d.src == src && sortStrings d.tags == sortStrings tags)
+      let misId := all.any (fun v =>
+        v.counters.any (fun e => !identOK .counter e.1 e.2.src e.2.tags) || v.timers.any (fun e => !identOK .timer e.1 e.2.src e.2.tags) ||
+        v.gauges.any (fun e => !identOK .gauge e.1 e.2.src e.2.tags) || v.sets.any (fun e => !identOK .set e.1 e.2.src e.2.tags))
+      if misId then "FAIL identity-mismatch a series is reported with tags or a source that no datapoint of that series carried" else
       -- (3) the quiescent ledger (the case ends with a flush of all shards)
       let endsQuiescent := match c.items.getLast? with | some (.flush none) => true | _ => false
       if !endsQuiescent then "ok" else
